@@ -570,6 +570,7 @@ theorem reach_monE {s : S} (hr : Reach s) : MonE s := by
   | nops k _ ih => exact monE_frame ih rfl rfl (evFrame_refl _)
   | newItem _ ih => exact monE_frame ih rfl rfl (evFrame_refl _)
   | noYields _ ih => exact monE_frame ih rfl rfl (evFrame_refl _)
+  | setBody b r _ ih => exact monE_frame ih rfl rfl (evFrame_refl _)
   | observe o ho _ ih =>
     refine monE_frame ih rfl rfl (evFrame_step _ o ?_)
     rcases ho with e | e <;> subst e <;> trivial
